@@ -283,9 +283,9 @@ def point_kind(v, thr):
         return reg
     for t in thr:
         if v == math.nextafter(t, math.inf):
-            return "next-float-above-threshold" if reg != "above-last" else "above-last"
+            return "next-float-to-threshold" if reg != "above-last" else "above-last"
         if v == math.nextafter(t, -math.inf):
-            return "next-float-below-threshold"
+            return "next-float-to-threshold"
     return reg
 
 
@@ -331,7 +331,9 @@ def judge_step(ctx, fn, values, logs, kinds, thr, ploidy, male_ref, keybase, sub
                 if pk.startswith("above-last")
                 else "cn = number of thresholds strictly below log2 (times r/ploidy, truncated, where r < ploidy)"
             )
-            ctx.violation(clause, f"{keybase}/{fn}/{pk}/{rc}", expected=sorted(want), observed=values[j], sub=sub_of(j, r))
+            path = keybase.split("/", 1)  # "step" or "step/purity<1" (log2 rewritten before thresholding)
+            key = f"step/{fn}/{pk}/{rc}" + ("/" + path[1] if len(path) > 1 else "")
+            ctx.violation(clause, key, expected=sorted(want), observed=values[j], sub=sub_of(j, r))
     return used
 
 
@@ -423,7 +425,7 @@ def run_monotone(case, ctx):
     if df is None:
         return
     cns = df["cn"].tolist()
-    judge_step(ctx, "do_call", cns, logs, kinds, thr, ploidy, male_ref, "monotone/step", sub_of, True)
+    judge_step(ctx, "do_call", cns, logs, kinds, thr, ploidy, male_ref, "step", sub_of, True)
     near = set()
     for t in thr:
         near.update((t, math.nextafter(t, -math.inf), math.nextafter(t, math.inf)))
@@ -469,10 +471,12 @@ def baf_kind(b):
         return "missing"
     if b < 0.0 or b > 1.0:
         return "outside-0-1"
-    return "half" if b == 0.5 else "in-0-1"
+    return "in-0-1"
 
 
-def judge_allelic(ctx, df, has_baf, bafs_for_key, keybase, sub_of, claimed=None):
+def judge_allelic(ctx, df, has_baf, bafs_for_key, source, sub_of, claimed=None):
+    """The allelic clauses on every row.  source = column | variants (where the BAF came from); the finding key names the clause,
+    the source, the kind of BAF value and whether cn is 0 - not the sub-check, so one cause gives the same few keys everywhere."""
     cns = df["cn"].tolist()
     c1 = df["cn1"].tolist()
     c2 = df["cn2"].tolist()
@@ -494,7 +498,7 @@ def judge_allelic(ctx, df, has_baf, bafs_for_key, keybase, sub_of, claimed=None)
                 "not-missing-without-baf": "cn1 and cn2 are both missing where the segment has no BAF and cn > 0",
                 "missing-with-baf-or-cn0": "cn1 and cn2 are present where the segment has a BAF or cn = 0",
             }[name]
-            ctx.violation(clause, f"{keybase}/{name}/baf-{bk}/{czero}", expected={"cn": cns[j], "has_baf": has_baf[j]}, observed={"cn1": c1[j], "cn2": c2[j]}, sub=sub_of(j))
+            ctx.violation(clause, f"allelic/{name}/{source}/baf-{bk}/{czero}", expected={"cn": cns[j], "has_baf": has_baf[j]}, observed={"cn1": c1[j], "cn2": c2[j]}, sub=sub_of(j))
     for o in sorted(seen, key=repr):
         ctx.outcome(o)
 
@@ -541,8 +545,8 @@ def run_allelic(case, ctx):
                     out_logs = df["log2"].tolist()
                     cns = df["cn"].tolist()
                     # cn itself is the step function of the row's (possibly rewritten) log2
-                    judge_step(ctx, "do_call", cns, out_logs, kinds, thr, ploidy, male_ref, f"allelic/step/{pk}", sub_of, arg is None)
-                    judge_allelic(ctx, df, has_baf, in_bafs, f"allelic/column/{pk}", sub_of)
+                    judge_step(ctx, "do_call", cns, out_logs, kinds, thr, ploidy, male_ref, "step" + ("/purity<1" if rescaled else ""), sub_of, arg is None)
+                    judge_allelic(ctx, df, has_baf, in_bafs, "column", sub_of)
                     for j, (kind, v, b) in enumerate(info):
                         ctx.state(("allelic", case["vector"], purity, ploidy, male_ref, fem, kind, v, b), nontrivial=(b != b) or cns[j] > 0)
     ctx.sample("allelic", {"case": case, "rows": len(rows), "first_rows": [list(r) for r in rows[:3]]})
@@ -587,8 +591,8 @@ def run_variants(case, ctx):
                 out_logs = df["log2"].tolist()
                 out_bafs = df["baf"].tolist()
                 cns = df["cn"].tolist()
-                judge_step(ctx, "do_call", cns, out_logs, kinds, thr, ploidy, male_ref, f"allelic/step-variants/{pk}", sub_of, arg is None)
-                judge_allelic(ctx, df, has_baf, out_bafs, f"allelic/variants/{pk}", sub_of)
+                judge_step(ctx, "do_call", cns, out_logs, kinds, thr, ploidy, male_ref, "step" + ("/purity<1" if rescaled else ""), sub_of, arg is None)
+                judge_allelic(ctx, df, has_baf, out_bafs, "variants", sub_of)
                 for j, (kind, v) in enumerate(info):
                     ob = out_bafs[j]
                     ctx.state(("variants", case["vector"], purity, ploidy, naming, male_ref, fem, kind, v, freqs[j]), nontrivial=ob == ob and (ob < 0 or ob > 1))
@@ -625,10 +629,10 @@ def run_edge(case, ctx):
                     continue
                 kinds = [M.chrom_kind(r[0]) for r in use]
                 logs = [r[4] for r in use]
-                judge_step(ctx, "do_call", df["cn"].tolist(), logs, kinds, thr, ploidy, male_ref, f"edge/{label}", lambda j, r, cfg=cfg: {**cfg, "r": r}, True)
+                judge_step(ctx, "do_call", df["cn"].tolist(), logs, kinds, thr, ploidy, male_ref, "step", lambda j, r, cfg=cfg: {**cfg, "r": r}, True)
                 ctx.outcome((label, df["cn"].tolist()))
                 if with_baf:
-                    judge_allelic(ctx, df, [r[5] == r[5] for r in use], [r[5] for r in use], f"edge/{label}/allelic", lambda j, cfg=cfg: cfg)
+                    judge_allelic(ctx, df, [r[5] == r[5] for r in use], [r[5] for r in use], "column", lambda j, cfg=cfg: cfg)
                 h = ctx.call(CALL.absolute_threshold, cna, ploidy, DOC_DEFAULT, male_ref)
                 if isinstance(h, Exc):
                     ctx.violation("absolute_threshold returns a result", f"edge/{label}/absolute_threshold/raises/{h.key}", observed=h, sub=cfg)
